@@ -173,6 +173,10 @@ func genFloat(T *sim.Tape) float64 {
 	case 14:
 		return -float64(T.Intn(100000, "fdec")) / 7
 	default:
+		if T.Bool("fpow10") {
+			// a short mantissa times a large or small power of ten (printed in exponent form)
+			return float64(1+T.Intn(99, "fmant")) * math.Pow(10, float64(T.Intn(90, "fexp")-45))
+		}
 		return 0.1 * float64(T.Intn(100, "ftenth"))
 	}
 }
